@@ -30,10 +30,15 @@ tempo `bpm ∈ 1..255` lasts exactly `tick bpm = 2500·L / bpm` units
 (`time_factor · rrate / bpm` ms with `time_factor = 10`, `rrate = 250`).  The
 `(int)` truncations of `ord_data.time` / `scan_data.time` are `toMs`.
 
+The runaway guard is modelled: `row_count_total` (`rowCountTotal`) counts the rows of the
+current order visit, is checked against `row_limit` (512; 3200 only in MED player mode, which none of
+the four formats uses) at the top of every row — before the `scan_cnt` test, leaving through
+`end_module` at that row without the `row_count--` — and is reset, together with `row_count`, only at
+the bottom of the order loop (not by the `continue`s of skipped orders).
+
 Not modelled (outside the vocabulary, constant in it): `break_row` (always 0
 without pattern breaks), pattern loops (`inside_loop`, `loop_active_num`),
-`line_jump`, `row_limit` (a pattern has at most 256 rows and
-`row_count_total` restarts at every order), global volume, ST2.6 / FAR / ULT
+`line_jump`, global volume, ST2.6 / FAR / ULT
 tempo modes, `QUIRK_PROTRACK`'s delay+break rule (needs two flow effects on a
 row), IT tempo slides (`T0x` / `T1x`).
 -/
@@ -111,6 +116,8 @@ structure ScanSt where
   speed : Nat
   bpm : Nat
   rowCount : Nat := 0
+  /-- `row_count_total`: rows scanned in the current order visit (runaway guard) -/
+  rowCountTotal : Nat := 0
   frameCount : Nat := 0
   time : Nat := 0
   startTime : Nat := 0
@@ -166,6 +173,9 @@ def Fx.delayOf : Fx → Nat
   | .delay d => d
   | _ => 0
 
+/-- `row_limit` of `scan_module` outside MED player mode -/
+def rowLimit : Nat := 512
+
 inductive RowsOut where
   /-- the `for` loop ended (last row, or `last_row = 0` after a jump); `ord2` -/
   | done (st : ScanSt) (ord2 : Option Nat)
@@ -179,14 +189,17 @@ def scanRows (ord : Nat) : List Fx → Nat → ScanSt → RowsOut
   | [], _, st => .done st none
   | fx :: rest, row, st0 =>
     let st := { st0 with bpm := if st0.bpm < 20 then 20 else st0.bpm }
-    if cntAt st.cnt ord row ≠ 0 then
+    if st.rowCountTotal > rowLimit then
+      .endMod st row
+    else if cntAt st.cnt ord row ≠ 0 then
       .endMod { st with rowCount := st.rowCount - 1 } row
     else
       let st1 := { st with cnt := cntBump (cntInc st.cnt ord row) ord row fx, osv := 0, anyValid := true }
       let st2 := applyFx fx st1
       let r : RowRec := { ord := ord, row := row, speed := st2.speed, bpm := st2.bpm,
                           delay := fx.delayOf, t0 := st.rowStart }
-      let st3 := { st2 with rowCount := st2.rowCount + 1, trace := r :: st2.trace }
+      let st3 := { st2 with rowCount := st2.rowCount + 1, rowCountTotal := st2.rowCountTotal + 1,
+                            trace := r :: st2.trace }
       match fx with
       | .jump j => .done st3 (some j)
       | _ => scanRows ord rest (row + 1) st3
@@ -236,7 +249,7 @@ def scanOrders (m : LinMod) (ep chain : Nat) : Nat → Nat → ScanSt → Outcom
         | .endMod st' row => .finished st' ord row
         | .done st' ord2 =>
           let st'' := { st' with frameCount := st'.frameCount + st'.rowCount * st'.speed,
-                                 rowCount := 0 }
+                                 rowCount := 0, rowCountTotal := 0 }
           scanOrders m ep chain fuel (ord2.getD (ord + 1)) st''
 
 /-- a fuel that `scan_module`'s outer loop never exhausts (`C18_scan_terminates`) -/
@@ -257,6 +270,8 @@ structure ScanResult where
   /-- scanned rows in order -/
   trace : List RowRec
   fuelOut : Bool := false
+  /-- final `row_count_total` (> `rowLimit` iff the scan left through the runaway guard) -/
+  rowTotal : Nat := 0
   deriving Repr, Inhabited
 
 def initCnt (m : LinMod) : List (List Nat) :=
@@ -279,7 +294,7 @@ def scanModule (m : LinMod) (ep chain : Nat) (ctl : List Nat) (info : List OrdIn
       let fc := st.frameCount + st.rowCount * st.speed
       let d := t + fc * tick st.bpm
       { ret := (toMs d : Int), durX := d, endOrd := ord, endRow := row, num := cntAt st.cnt ord row,
-        ctl := st.ctl, info := st.info, trace := st.trace.reverse }
+        ctl := st.ctl, info := st.info, trace := st.trace.reverse, rowTotal := st.rowCountTotal }
 
 /-- one accepted sequence -/
 structure SeqRec where
@@ -512,11 +527,12 @@ def Fx.wfb : Fx → Bool
   | .rowdelay _ => false
   | _ => true
 
-/-- the module class: patterns non-empty with in-vocabulary parameters, initial speed ≥ 1 and tempo ≥ 20,
+/-- the module class: patterns of 1..256 rows (so that the 512-row runaway guard of the scan never fires)
+with in-vocabulary parameters, initial speed ≥ 1 and tempo ≥ 20,
 at most 256 orders, restart position inside the order list; in marker formats pattern numbers
 0xfe / 0xff are never real patterns and an end marker in the order list excludes a restart position -/
 def modWFb (m : LinMod) : Bool :=
-  m.pats.all (fun p => !p.isEmpty && p.all Fx.wfb) && decide (1 ≤ m.spd) && decide (20 ≤ m.bpm) &&
+  m.pats.all (fun p => !p.isEmpty && decide (p.length ≤ 256) && p.all Fx.wfb) && decide (1 ≤ m.spd) && decide (20 ≤ m.bpm) &&
   decide (m.len ≤ 256) && decide (m.rst < m.len) &&
   (!m.marker || (decide (m.npat ≤ 254) &&
     (decide (m.rst = 0) || (List.range m.len).all (fun o => m.patOf o != 0xff))))
